@@ -278,7 +278,16 @@ pub fn run_line(line: &str) -> String {
         Some("W") if w.len() == 2 => {
             let (files, root, defs) = match load(w[1]) { Some(x) => x, None => return "BAD-CASE".into() };
             match type_check(&files, root, defs) {
-                Err(p) => format!("PANIC {}", p.lines().next().unwrap_or("")),
+                Err(p) => {
+                    // an abort inside the type rules of the IR (get_type / get_return_type) or at the type checker's own
+                    // comparison of the type it computed with the type of the node it built is a typing fault of the
+                    // elaborated IR, not merely an abort
+                    let site = take_panic_site().unwrap_or_default();
+                    let first = p.lines().next().unwrap_or("").to_string();
+                    if site.starts_with("ir/src/intrinsics.rs") || site.starts_with("ir/src/ir_expressions.rs") || first.contains("] != [") {
+                        format!("TYPEFAULT {} {}", site, first)
+                    } else { format!("PANIC {}", first) }
+                }
                 Ok(Err(e)) => format!("REJECTED {}", e.lines().next().unwrap_or("")),
                 Ok(Ok(m)) => {
                     let (funcs, bad) = dump(&m);
